@@ -122,6 +122,10 @@ func (as *AttributeSchema) Validate() error {
 		}
 	}
 
+	if as.Constraint == nil {
+		return errors.New("Constraint must be set")
+	}
+
 	if con, ok := as.Constraint.(Validatable); ok {
 		err := con.Validate()
 		if err != nil {
